@@ -1,6 +1,7 @@
 package bt
 
 import (
+	"bytes"
 	"encoding/binary"
 	"fmt"
 	"math"
@@ -49,9 +50,9 @@ type Profile struct {
 }
 
 var Profiles = map[string]Profile{
-	"c01":    {Name: "c01", Mutate: 50, MutateRows: 20, Read: 10, Clock: 8, ReadAfterWrite: true, Invalid: 12, MinOps: 4, MaxOps: 40},
+	"c01":    {Name: "c01", DeepColumn: true, Mutate: 50, MutateRows: 20, Read: 10, Clock: 8, ReadAfterWrite: true, Invalid: 12, MinOps: 4, MaxOps: 40},
 	"c03":    {Name: "c03", Mutate: 10, MutateRows: 10, Read: 70, Keys: 8, DropRange: 2, RowSets: 90, Filters: 15, MinOps: 10, MaxOps: 40, ManyRows: true},
-	"c05":    {Name: "c05", Mutate: 6, MutateRows: 10, Read: 80, Rand: 4, Filters: 100, RowSets: 10, MinOps: 10, MaxOps: 40, ManyRows: true},
+	"c05":    {Name: "c05", Mutate: 6, MutateRows: 10, Rmw: 5, Read: 80, Rand: 4, Filters: 100, RowSets: 10, MinOps: 10, MaxOps: 40, ManyRows: true},
 	"c06":    {Name: "c06", Mutate: 30, MutateRows: 30, Cam: 15, Rmw: 15, Read: 5, ReadAfterWrite: true, Invalid: 45, MinOps: 4, MaxOps: 25},
 	"c12":    {Name: "c12", Mutate: 15, MutateRows: 5, Cam: 60, Read: 5, Rand: 3, Clock: 3, ReadAfterWrite: true, Invalid: 15, MinOps: 4, MaxOps: 30},
 	"c13":    {Name: "c13", DeepColumn: true, Mutate: 20, Rmw: 60, Read: 5, Clock: 10, ReadAfterWrite: true, Invalid: 5, MinOps: 4, MaxOps: 30},
@@ -60,9 +61,11 @@ var Profiles = map[string]Profile{
 	// the background loop's pass and the quiescence it waits for: time passes, requests come, the pass is tried
 	"c16q":   {Name: "c16q", Mutate: 30, MutateRows: 8, Rmw: 4, Cam: 4, Idle: 45, Read: 10, Gc: 3, Clock: 10, Modify: 4, MinOps: 8, MaxOps: 40, GcRules: true, Invalid: 15},
 	"c03big": {Name: "c03big", Mutate: 5, Read: 90, Keys: 5, RowSets: 70, Filters: 10, MinOps: 6, MaxOps: 14, Big: 450},
+	"c17big": {Name: "c17big", Mutate: 5, Read: 90, Keys: 5, RowSets: 70, Filters: 10, MinOps: 4, MaxOps: 8, Big: 1100},
 	"c16w":   {Name: "c16w", Mutate: 10, Gcw: 50, Clock: 20, Read: 10, Keys: 10, ReadAfterWrite: true, MinOps: 4, MaxOps: 10, GcRules: true, Big: 260},
 	// ("t.v2": an id that extends another one by a dotted suffix — the files of one must not be taken for the other's)
-	"c08":    {Name: "c08", ExtraIDs: []string{"t.v2"}, Mutate: 25, MutateRows: 12, Cam: 4, Rmw: 6, Modify: 12, DropRange: 12, Create: 10, Delete: 8, Gc: 3, Clock: 3, MinOps: 8, MaxOps: 35, GcRules: true, Invalid: 5},
+	// ("x/": an id whose path form differs from its text — the definition file must be found again on delete)
+	"c08":    {Name: "c08", ExtraIDs: []string{"t.v2", "x/"}, Mutate: 25, MutateRows: 12, Cam: 4, Rmw: 6, Modify: 12, DropRange: 12, Create: 10, Delete: 8, Gc: 3, Clock: 3, MinOps: 8, MaxOps: 35, GcRules: true, Invalid: 5},
 	// (the extra id is table t's definition file name on disk: legal, and the engines must still agree — no restarts here, see finding K1)
 	"c17": {Name: "c17", ExtraIDs: []string{"t.table.proto"}, Mutate: 20, MutateRows: 12, Cam: 8, Rmw: 8, Read: 20, Keys: 3, Modify: 5, DropRange: 5, Create: 3, Delete: 2, List: 2, Get: 3, Gc: 4, Clock: 4, Rand: 2,
 		ReadAfterWrite: false, Filters: 50, RowSets: 50, Invalid: 10, MinOps: 10, MaxOps: 60, GcRules: true},
@@ -208,7 +211,15 @@ func (g *Gen) Muts(maxN int) []Mut {
 	return ms
 }
 
-func (g *Gen) key() []byte { return core.Pick(g.R, Keys) }
+// LongKeys: row keys around the length where a one-byte length prefix stops being enough (and well beyond)
+var LongKeys = [][]byte{bytes.Repeat([]byte("L"), 127), bytes.Repeat([]byte("L"), 128), append(bytes.Repeat([]byte("k"), 299), 0xff)}
+
+func (g *Gen) key() []byte {
+	if g.R.Chance(1, 14) {
+		return core.Pick(g.R, LongKeys)
+	}
+	return core.Pick(g.R, Keys)
+}
 
 // ids: the table ids of the profile.
 func (g *Gen) ids() []string { return append(append([]string{}, IDs...), g.P.ExtraIDs...) }
@@ -257,9 +268,30 @@ func (g *Gen) Regex(depth int) *Regex {
 
 var badPatterns = [][]byte{[]byte("("), []byte("[a"), []byte("*"), []byte(`\`), []byte("a{2,1}")}
 
+// longAlt: z…z|c with forty z — long patterns that differ only in their last byte (and have the same length)
+func longAlt(c byte) *Regex {
+	var lit *Regex
+	for i := 0; i < 40; i++ {
+		b := &Regex{Kind: "b", B: 'z'}
+		if lit == nil {
+			lit = b
+		} else {
+			lit = &Regex{Kind: "cat", X: lit, Y: b}
+		}
+	}
+	return &Regex{Kind: "alt", X: lit, Y: &Regex{Kind: "b", B: c}}
+}
+
 func (g *Gen) Rx(ascii bool) *Rx {
 	if g.R.Chance(1, 14) {
 		return &Rx{Bad: core.Pick(g.R, badPatterns)}
+	}
+	if g.R.Chance(1, 12) {
+		if g.R.Chance(1, 6) {
+			// the same length and the same forty bytes, but not a pattern
+			return &Rx{Bad: append(longAlt('a').plain(0)[:41], '(')}
+		}
+		return &Rx{Re: longAlt(core.Pick(g.R, []byte{'a', 'b', 'w', 'v'})), Plain: true}
 	}
 	for {
 		re := g.Regex(g.R.Intn(3))
@@ -482,6 +514,48 @@ func (g *Gen) fullNodeTable(prog *[]core.Op) {
 		g.fullRead(name))
 }
 
+// sizedTableDropAll: a table with a row count around a batch size of the storage layer (128), then
+// "delete all data": nothing may be left, now or after a restart.
+func (g *Gen) sizedTableDropAll(prog *[]core.Op) {
+	name := g.tables[0]
+	n := core.Pick(g.R, []int{127, 128, 129, 129, 130, 257})
+	w := &Op{Kind: "mutaterows", Name: name}
+	for i := 0; i < n; i++ {
+		w.Entries = append(w.Entries, Entry{Key: []byte(fmt.Sprintf("row-%05d", i)), Muts: []Mut{{Kind: "set", Fam: Fams[0], Qual: []byte("q"), TS: 1000, Val: []byte("x")}}})
+	}
+	*prog = append(*prog, w, &Op{Kind: "droprange", Name: name, Target: "all"}, g.fullRead(name))
+}
+
+// longBatch: one MutateRows with more entries than the small-slice paths of the standard library's
+// sort (12) and other batch thresholds (32), in no particular key order, in which some row keys occur
+// twice with mutations that do not commute: entries are applied in request order.
+func (g *Gen) longBatch(prog *[]core.Op) {
+	name := g.tables[0]
+	n := core.Pick(g.R, []int{13, 14, 20, 33, 40})
+	w := &Op{Kind: "mutaterows", Name: name}
+	keys := make([][]byte, n)
+	for i := range keys {
+		keys[i] = []byte(fmt.Sprintf("k%02d", (i*7+3)%n))
+	}
+	// two pairs of repeated keys, far apart
+	keys[n-2] = keys[1]
+	keys[n-1] = keys[4]
+	for i, k := range keys {
+		var ms []Mut
+		switch {
+		case i == n-2:
+			ms = []Mut{{Kind: "set", Fam: Fams[1], Qual: []byte("b"), TS: 1000, Val: []byte("second")}}
+		case i == n-1:
+			ms = []Mut{{Kind: "delrow"}, {Kind: "set", Fam: Fams[0], Qual: []byte("z"), TS: 2000, Val: []byte("after-delete")}}
+		default:
+			ms = []Mut{{Kind: "set", Fam: Fams[0], Qual: []byte("a"), TS: 1000, Val: []byte(fmt.Sprintf("entry%d", i))},
+				{Kind: "set", Fam: Fams[1], Qual: []byte("b"), TS: 1000, Val: []byte("first")}}
+		}
+		w.Entries = append(w.Entries, Entry{Key: k, Muts: ms})
+	}
+	*prog = append(*prog, w, g.fullRead(name))
+}
+
 // fillRows writes a dense table: every key gets a few cells.
 func (g *Gen) fillRows(prog *[]core.Op, table string) {
 	var entries []Entry
@@ -515,14 +589,25 @@ func (g *Gen) Program() []core.Op {
 	if (g.P.Name == "c14" || g.P.Name == "c16" || g.P.Name == "c17") && g.R.Chance(1, 5) {
 		g.fullNodeTable(&prog)
 	}
+	if (g.P.Name == "c14" || g.P.Name == "c17" || g.P.Name == "c08") && g.R.Chance(1, 6) {
+		g.sizedTableDropAll(&prog)
+	}
+	if (g.P.Name == "c01" || g.P.Name == "c06" || g.P.Name == "c17") && g.R.Chance(1, 5) {
+		g.longBatch(&prog)
+	}
 	if g.P.DeepColumn && g.R.Chance(1, 2) {
 		// a column with a long history (more versions than any small-slice fast path handles), counters in it
 		var ms []Mut
-		nv := 12 + g.R.Intn(12)
+		nv := 12 + g.R.Intn(30)
 		for v := 1; v <= nv; v++ {
 			ms = append(ms, Mut{Kind: "set", Fam: "f", Qual: []byte("a"), TS: int64(v) * 1000, Val: i64(int64(v))})
 		}
 		prog = append(prog, &Op{Kind: "mutate", Name: g.tables[0], Key: []byte("a"), Muts: ms})
+		if g.R.Chance(1, 2) {
+			// a version somewhere in the middle is written again: one cell per timestamp, the last value
+			prog = append(prog, &Op{Kind: "mutate", Name: g.tables[0], Key: []byte("a"),
+				Muts: []Mut{{Kind: "set", Fam: "f", Qual: []byte("a"), TS: int64(1+g.R.Intn(nv)) * 1000, Val: []byte("again")}}}, g.fullRead(g.tables[0]))
+		}
 		// the clock at (or before) the newest version: the next writes land on its timestamp
 		prog = append(prog, &Op{Kind: "clock", N: int64(nv) * 1000})
 	}
@@ -623,6 +708,10 @@ func (g *Gen) Program() []core.Op {
 						lo, hi := g.R.Intn(g.P.Big), g.R.Intn(g.P.Big)
 						if lo > hi {
 							lo, hi = hi, lo
+						}
+						if g.P.Big > 1100-1 && g.R.Chance(1, 2) {
+							// a bounded range holding more rows than any internal batch of a scan (1024), with rows behind its end
+							lo, hi = g.R.Intn(30), 1060+g.R.Intn(30)
 						}
 						o.Ranges = [][2]Bound{{{Kind: 'c', K: []byte(fmt.Sprintf("r%04d", lo))}, {Kind: core.Pick(g.R, []byte{'o', 'c'}), K: []byte(fmt.Sprintf("r%04d", hi))}}}
 					}
